@@ -74,7 +74,8 @@ def run(tier: str) -> int:
                      "seed": rng.randrange(2**31), "ncalls": 3, "rseed": rng.randrange(2**31), "extreme": rng.random() < 0.5})
     results = sh.run_jobs(jobs)
     results.append(stub_events(tier, rng))
-    return c03.finish(chk, results, {"sample", "bestbatch", "select"},
+    results += sh.clip_events(150 if tier == "quick" else 3000, rng)
+    return c03.finish(chk, results, {"sample", "bestbatch", "select", "clip"},
                       "every built-in sampler called repeatedly on histories with ties and extreme / infinite / float32-overflowing losses "
                       "(history bytes compared before/after); best-batch over its option lattice (proposal = confined shock of one of the "
                       "batch_size lowest-loss points, checked per coordinate by TLC); real surrogates wrapped at fit/predict and stub "
